@@ -25,6 +25,8 @@ def envValOf (s : String) : Option (Option (List Char)) :=
 ops
   `thr <unset|hex of the value>`   → `threshold()`
   `disp <t> <len>`                 → `re2` | `grafana`: the engine `FindAllIndex` runs under threshold `t` for `len` input bytes
+  `pat <caseSensitive> <fileName> <printed hex>` → `g=<hex> h=<hex|none>`: the regexps newRegexpMatchTree evaluates for the query — asked
+                                     in long in-process sequences that repeat a regexp with other case / file-name settings under every threshold
   `hyb <t> <len> g=<digest> r=<digest>` → the digest of what `hybridre2.FindAllIndex` must return for an input of `len` bytes under
                                      threshold `t`, given the digests of the two engines' own results for the same call
   `fa <tree> <orbits> <subject>`   → spec only: spans of both engines (rune indices) admissible for the tree and equal
@@ -40,6 +42,12 @@ def handle (line : String) : String :=
     match t.toInt?, n.toNat? with
     | some t, some n => answer (if dispatch t n then "re2" else "grafana")
     | _, _ => badCase "disp fields"
+  | ["pat", cs, fn, printed] =>
+    match bool? cs, bool? fn, hexToBytes? printed with
+    | some cs, some fn, some pr =>
+      let (g, h) := matchTreePatterns cs fn pr
+      answer s!"g={bytesToHex g} h={match h with | some x => bytesToHex x | none => "none"}"
+    | _, _, _ => badCase "pat fields"
   | ["hyb", t, n, g, r2] =>
     match t.toInt?, n.toNat?, stripPrefix? "g=" g, stripPrefix? "r=" r2 with
     | some t, some n, some g, some r2 => answer (hybridSelect t n g r2)
